@@ -85,6 +85,48 @@ NextOut(tab, pr, gs, it) ==
        ELSE IF tab.vt[i] \in Bad THEN Out("panic_cast", 0, c)          \* assertion in attach_vtable
        ELSE Out("some", tab.vt[i], c)
 
+\* ---- consuming an iterator through the std adapters --------------------------------
+\* nth / skip / step_by / take / last / count only ever call `next` (Iterator's provided
+\* methods): what they hand out is a sub-sequence of what plain iteration yields.  A PLAN says,
+\* for every successive `next`, whether its item is handed out (TRUE) or dropped at once (FALSE).
+PlanOf(how, n, m) ==
+  CASE how = "nth"  -> [i \in 1..(n + 1) |-> i = n + 1]                     \* it.nth(n)
+    [] how = "skip" -> [i \in 1..(n + m) |-> i > n]                         \* it.by_ref().skip(n).take(m)
+    [] how = "step" -> [i \in 1..(1 + (m - 1) * n) |-> (i - 1) % n = 0]     \* it.by_ref().step_by(n).take(m)
+    [] how = "take" -> [i \in 1..m |-> TRUE]                                \* it.by_ref().take(m)
+    [] OTHER        -> [i \in 1..(NT + 1) |-> TRUE]                         \* last(), count(): pull everything
+\* successive nexts along `plan`; stops at the first `none` or panic.  The guards of items that are
+\* handed out cannot matter to later nexts of the same iterator (every cell is visited once).
+RECURSIVE Walk(_, _, _, _, _, _)
+Walk(tb, pr, gs, it, plan, acc) ==
+  IF plan = <<>> THEN [items |-> acc, end |-> "done", it |-> it]
+  ELSE LET out == NextOut(tb, pr, gs, it)
+           i == NextPos(tb, pr, it.pos)
+           it2 == IF out.o = "none" THEN [it EXCEPT !.pos = Len(tb.tys) + 1]
+                  ELSE [k |-> it.k, pos |-> i + 1, y |-> Append(it.y, out.obj[1])]
+       IN IF out.o = "some"
+          THEN Walk(tb, pr, gs, it2, Tail(plan), IF Head(plan) THEN Append(acc, out) ELSE acc)
+          ELSE [items |-> acc, end |-> out.o, it |-> it2]
+\* what the caller holds afterwards: last() keeps only the final item, count() none; when a panic
+\* ends last()/count() everything pulled so far is dropped by the unwinding
+Kept(how, w) ==
+  IF how = "count" THEN <<>>
+  ELSE IF how = "last" THEN (IF w.end = "none" /\ w.items # <<>> THEN <<w.items[Len(w.items)]>> ELSE <<>>)
+  ELSE w.items
+\* the table as the PROPERTY sees it: first-registration order, every type with its own vtable
+DeclTab(fst) == [tys |-> fst, vt |-> fst, idx |-> <<>>]
+\* P_C17 for adapters: the answer is the sub-sequence of plain iteration selected by the plan
+WalkOK(fst, pr, gs, it, how, n, m, items, end) ==
+  LET w == Walk(DeclTab(fst), pr, gs, it, PlanOf(how, n, m), <<>>) IN
+  /\ end = w.end
+  /\ items = Kept(how, w)
+\* size_hint: lower <= number of entries still to come <= upper (if an upper bound is given)
+Remaining(fst, pr, it) == Cardinality({i \in it.pos..Len(fst) : <<fst[i], 0>> \in pr})
+HintOK(fst, pr, it, lo, hi, hasHi) == lo <= Remaining(fst, pr, it) /\ (hasHi => Remaining(fst, pr, it) <= hi)
+RECURSIVE FreeIds(_, _, _)
+FreeIds(f, max, n) == IF n = 0 THEN <<>> ELSE LET g == Free(f, max) IN <<g>> \o FreeIds(Ext(f, g, 0), max, n - 1)
+NFree(f, max) == Cardinality({i \in 1..max : i \notin DOMAIN f})
+
 \* ---- P_C17: the property, on history only -----------------------------------
 \* get / get_mut: Some exactly for registered types, the very same object, methods of its own type
 GetOK(fst, c, out) ==
@@ -210,6 +252,25 @@ IterNext(h) ==
         /\ Log(Call("next", 0, 0, it.k, h, IF out.o = "some" THEN g ELSE 0, out, present, guards'))
   /\ UNCHANGED <<tab, present, first>>
 
+\* the iterator consumed through an adapter (see PlanOf); items handed out stay alive as guards
+IterWalk(h, how, n, m) ==
+  /\ h \in DOMAIN iters
+  /\ NFree(guards, MaxG) >= (IF how \in {"nth", "last"} THEN 1 ELSE IF how = "count" THEN 0 ELSE m)
+  /\ LET it == iters[h]
+         w == Walk(tab, present, guards, it, PlanOf(how, n, m), <<>>)
+         kept == Kept(how, w)
+         ids == FreeIds(guards, MaxG, Len(kept))
+         gs2 == [g \in DOMAIN guards \cup Range(ids) |->
+                   IF g \in DOMAIN guards THEN guards[g]
+                   ELSE LET j == CHOOSE j \in DOMAIN ids : ids[j] = g IN
+                        [t |-> kept[j].obj[1], d |-> 0, k |-> it.k, src |-> "item"]]
+     IN /\ ok' = WalkOK(first, present, guards, it, how, n, m, kept, w.end)
+        /\ guards' = gs2
+        /\ iters' = [iters EXCEPT ![h] = w.it]
+        /\ Log([op |-> "walk", how |-> how, n |-> n, m |-> m, k |-> it.k, h |-> h, ids |-> ids, items |-> kept,
+                 end |-> w.end, cnt |-> Len(w.items), b |-> View(present, gs2)])
+  /\ UNCHANGED <<tab, present, first>>
+
 IterDrop(h) ==
   /\ h \in DOMAIN iters
   /\ iters' = Rem(iters, h)
@@ -225,6 +286,10 @@ Next ==
   \/ \E T \in Types, m \in BOOLEAN : GetLoose(T, m)
   \/ \E k \in {"r", "w"} : IterNew(k)
   \/ \E h \in 1..MaxI : IterNext(h) \/ IterDrop(h)
+  \/ \E h \in 1..MaxI, n \in 0..2 : IterWalk(h, "nth", n, 1)
+  \/ \E h \in 1..MaxI, n \in 0..2, m \in 1..2 : IterWalk(h, "skip", n, m)
+  \/ \E h \in 1..MaxI, n \in 1..2 : IterWalk(h, "step", n, 2)
+  \/ \E h \in 1..MaxI : IterWalk(h, "take", 0, 2) \/ IterWalk(h, "last", 0, 0) \/ IterWalk(h, "count", 0, 0)
 
 MetaSpec == Init /\ [][Next]_vars
 
